@@ -382,6 +382,18 @@ func c11WaitNoGoroutine(fragment string, max time.Duration) bool {
 	}
 }
 
+// keys with a positive count, ascending (Go map order must not leak into the generated case)
+func c11PosKeys(m map[uint32]int) []uint32 {
+	var ks []uint32
+	for k, v := range m {
+		if v > 0 {
+			ks = append(ks, k)
+		}
+	}
+	sort.Slice(ks, func(i, j int) bool { return ks[i] < ks[j] })
+	return ks
+}
+
 func c11RelayDrain(rng *rand.Rand, n int, o *Out) {
 	if n == 0 {
 		return
@@ -499,17 +511,15 @@ func c11RelayDrain(rng *rand.Rand, n int, o *Out) {
 				}
 				o.Hist(fmt.Sprintf("relaydrain getstop found=%v stopped=%v tomb=%v", found, stopped, tomb))
 			case k <= 6: // the handler that holds the id finishes
-				for id, cnt := range held {
-					if cnt > 0 {
-						var ok bool
-						guard(func() { ok = v.Finish(id) })
-						add(3, id)
-						outs = append(outs, b2i(ok))
-						held[id]--
-						present[id] = false
-						o.Hist(fmt.Sprintf("relaydrain finish ok=%v", ok))
-						break
-					}
+				if ks := c11PosKeys(held); len(ks) > 0 {
+					id := ks[0]
+					var ok bool
+					guard(func() { ok = v.Finish(id) })
+					add(3, id)
+					outs = append(outs, b2i(ok))
+					held[id]--
+					present[id] = false
+					o.Hist(fmt.Sprintf("relaydrain finish ok=%v", ok))
 				}
 			case k <= 8: // failRelayItem (both halves)
 				id, ok := pickID()
@@ -569,23 +579,21 @@ func c11RelayDrain(rng *rand.Rand, n int, o *Out) {
 				afterEntomb(id, okE)
 				o.Hist(fmt.Sprintf("relaydrain timer fired entombed=%v", okE))
 			default: // tombstone GC callback
-				for id, cnt := range gc {
-					if cnt > 0 {
-						guard(func() { v.Gc(id) })
-						add(7, id)
-						gc[id]--
-						present[id] = false
-						o.Hist("relaydrain gc")
-						break
-					}
+				if ks := c11PosKeys(gc); len(ks) > 0 {
+					id := ks[0]
+					guard(func() { v.Gc(id) })
+					add(7, id)
+					gc[id]--
+					present[id] = false
+					o.Hist("relaydrain gc")
 				}
 			}
 		}
 		// quiescence for this map: fire every armed timer, finish every held id, run every GC
 		drain := rng.Intn(3) != 0
 		if drain && !panicked {
-			for id, cnt := range held {
-				for ; cnt > 0; cnt-- {
+			for _, id := range c11PosKeys(held) {
+				for cnt := held[id]; cnt > 0; cnt-- {
 					var ok bool
 					guard(func() { ok = v.Finish(id) })
 					add(3, id)
@@ -615,8 +623,8 @@ func c11RelayDrain(rng *rand.Rand, n int, o *Out) {
 					}
 				}
 			}
-			for id, cnt := range gc {
-				for ; cnt > 0; cnt-- {
+			for _, id := range c11PosKeys(gc) {
+				for cnt := gc[id]; cnt > 0; cnt-- {
 					guard(func() { v.Gc(id) })
 					add(7, id)
 				}
